@@ -1310,7 +1310,7 @@ class Reaction(Object):
                 # Reset them with add_metabolites
                 mets_to_reset = {
                     key: old_coefficients.get(
-                        model.metabolites.get_by_any(key)[0], 0
+                        model.metabolites.get_by_id(str(key)), 0
                     )
                     for key in metabolites_to_add.keys()
                 }
